@@ -1134,6 +1134,10 @@ public:
 	}
 	bool set(const K &key, const V &value)
 	{
+		/* entries may be shared with map copies */
+		if (!_d.detach()) {
+			return false;
+		}
 		V *d = get(key);
 		if (!d) {
 			return _d.insert(_d.length(), entry(key, value));
